@@ -8,3 +8,25 @@ use ndarray::{Array1, Array2};
 pub fn truncated_svd_largest(x: Array2<f64>, k: usize) -> Result<(Array1<f64>, Array2<f64>), String> {
     crate::pca::leading_svd(x, k).map_err(|e| e.to_string())
 }
+
+/// The dense branch of `pca::leading_svd` before the truncation to the leading pairs: same
+/// solver, order and seed, full-size block (`dim` pairs), no iteration.
+pub fn dense_svd_full(x: Array2<f64>, dim: usize) -> Result<(Array1<f64>, Array2<f64>), String> {
+    use linfa_linalg::{lobpcg::TruncatedSvd, Order};
+    use rand::{prelude::SmallRng, SeedableRng};
+    let solver = TruncatedSvd::new_with_rng(x, Order::Largest, SmallRng::seed_from_u64(42));
+    let result = solver.maxiter(0).decompose(dim).map_err(|e| e.to_string())?;
+    let (_, sigma, v_t) = result.values_vectors();
+    Ok((sigma, v_t))
+}
+
+/// The iterative branch of `pca::leading_svd`: LOBPCG for the leading `num` pairs, same order and
+/// seed.
+pub fn lobpcg_svd(x: Array2<f64>, num: usize) -> Result<(Array1<f64>, Array2<f64>), String> {
+    use linfa_linalg::{lobpcg::TruncatedSvd, Order};
+    use rand::{prelude::SmallRng, SeedableRng};
+    let solver = TruncatedSvd::new_with_rng(x, Order::Largest, SmallRng::seed_from_u64(42));
+    let result = solver.decompose(num).map_err(|e| e.to_string())?;
+    let (_, sigma, v_t) = result.values_vectors();
+    Ok((sigma, v_t))
+}
